@@ -708,9 +708,18 @@ def run_C15(ctx):
                     e = special or r.choice(['string', 'stream', 'file'])
                     out = impl.do('loccase %d %d %s %s' % (g, t, e, hexs(tx)))
                     stats['c15:g%dt%d:%s' % (g, t, e)] = stats.get('c15:g%dt%d:%s' % (g, t, e), 0) + 1
+        # two threads whose calls overlap: A parked inside its include function in the middle of a read while B reads
+        # and writes floats, under every locale set-up
+        for g in (0, 1):
+            for t in (0, 1):
+                impl.do('locoverlap %d %d' % (g, t)); stats['c15:overlap'] = stats.get('c15:overlap', 0) + 1
     def oracle(ops, outs):
         base = {}
         for i, (o, r) in enumerate(zip(ops, outs)):
+            if o.startswith('locoverlap'):
+                if r != '1 7750 1 1500 2250 %s 1' % b'a = 1.5;\nb = 2.25;\n'.hex():
+                    return i, 'two threads with overlapping reads under a comma locale: %s (A ok, A.y x1000, B ok, B.a x1000, B.b x1000, B text, locales kept)' % r
+                continue
             f = r.split(' ')
             if len(f) != 8:
                 return i, 'unexpected harness answer %r' % r
@@ -731,7 +740,7 @@ def run_C15(ctx):
                 return i, 'result or written text differs between locale set-ups'
             base.setdefault(key, (f[0], f[1]))
         return None
-    correspondence(ctx, [fn], proj_full, oracle, 'C15 locale independence', 'locales', driver='drv_loc.c', impl_env={'LOCPATH': locpath, 'ASAN_OPTIONS': 'detect_leaks=0'})  # glibc's locale loader keeps allocations alive
+    correspondence(ctx, [fn], proj_full, oracle, 'C15 locale independence', 'locales', driver='drv_loc.c', extra=('-lpthread',), impl_env={'LOCPATH': locpath, 'ASAN_OPTIONS': 'detect_leaks=0'})  # glibc's locale loader keeps allocations alive
 
 def run_C20(ctx):
     rng = Rng(ctx['seed'] * 49979687 + 20)
@@ -844,7 +853,8 @@ def run_C14(ctx):
                 return i, 'a thread obtained results that differ from its serial run: ' + o
         return None
     correspondence(ctx, [fn], lambda op, out: out.split(' ')[0], oracle, 'C14 thread independence', 'threads', driver='drv_thr.c',
-                   extra=('-lpthread',), san='-fsanitize=thread', impl_env={'TSAN_OPTIONS': 'halt_on_error=1 exitcode=66'})
+                   extra=('-lpthread', '-Wl,--wrap=malloc', '-Wl,--wrap=calloc', '-Wl,--wrap=realloc', '-Wl,--wrap=strdup'), san='-fsanitize=thread',
+                   impl_env={'TSAN_OPTIONS': 'halt_on_error=1 exitcode=66'})
     c14_cpp_threads(ctx)
 
 K_CPP_HANDLER = 'C14:cpp-constructor-writes-global-handler'
